@@ -18,3 +18,5 @@ PROP = {
 }
 
 PROP['rule'] += ' Shape family (session 3): additionally unit as left/right part of sum and product and under optional, and every leaf kind (switch, flag, option, unit_switch) in every composition position it had not been seen in (20 more shapes).'
+
+PROP['rule'] += " The second pass per shape (own names extended / re-dashed, vectors <= 3) also contains the empty string as a token."
